@@ -118,6 +118,8 @@ def canonical(root):
             keep.append(v)
             return ["partial", getattr(v.func, "__qualname__", "?"), [val(x, depth + 1) for x in v.args],
                     [[kk, val(x, depth + 1)] for kk, x in sorted(v.keywords.items())]]
+        if hasattr(type(v), "egv_canon"):
+            return ["custom", type(v).__qualname__, val(v.egv_canon(), depth + 1)]
         return ["other", type(v).__qualname__]
 
     if isinstance(root, dict):
